@@ -103,3 +103,55 @@ def oracle_sections(R, tier, seed):
             except TypeError as e:
                 _fail(O2, "C14:generate_section_geometry(asymmetric):sections-do-not-join", desc, exception="TypeError: %s" % e)
             R.mark("c14a", rep, nright)
+
+
+def oracle_join_component(R, tier, seed):
+    """the joining component on generated multi-section meshes: with one mask per shared edge (the same or DIFFERENT axes from
+    edge to edge) the reported separation of coincident sections is zero, and after moving one section by a known offset it
+    is the offset on the masked axes of that section's two edges.  unify_mesh must not write into the user's section meshes."""
+    from openaerostruct.geometry.geometry_mesh_gen import generate_mesh as gen_sections
+    from openaerostruct.geometry.geometry_multi_join import GeomMultiJoin
+    from openaerostruct.geometry.geometry_unification import unify_mesh
+    O = R.oracle("GeomMultiJoin.generated-sections"); O2 = R.oracle("unify_mesh.user-meshes-untouched")
+    rng = gen.stable_rng(seed, "c14join")
+    for nsec in (3, 4):
+        for rep in range(2 if tier == "quick" else 5):
+            nx = int(rng.integers(2, 4)); ny = rng.integers(2, 5, nsec)
+            surface = {"num_sections": nsec, "symmetry": True, "taper": rng.uniform(0.5, 1.0, nsec), "sweep": np.deg2rad(rng.uniform(0, 25, nsec)), "span": rng.uniform(1, 3, nsec),
+                       "root_chord": float(rng.uniform(1, 3)), "nx": nx, "ny": ny}
+            _, secs = gen_sections(surface)
+            secs = [np.array(s) for s in secs]
+            sections = [{"name": "s%d" % i, "mesh": secs[i], "symmetry": True} for i in range(nsec)]
+            masks_all = [[[1, 0, 0]] * (nsec - 1), [[1, 0, 0], [0, 1, 0]] + [[0, 0, 1]] * (nsec - 3), [[1, 0, 1], [0, 1, 1]] + [[1, 1, 0]] * (nsec - 3)]
+            off = rng.normal(size=3) * 0.3; moved = 1                      # section 1 is moved by `off`
+            for masks in masks_all:
+                dim_constr = [np.array(m) for m in masks]
+                bad = {}
+                for shifted in (False, True):
+                    ins = {"s%d_join_mesh" % i: (secs[i] + off if (shifted and i == moved) else secs[i]) for i in range(nsec)}
+                    o, _, _ = core.run_comp(GeomMultiJoin(sections=sections, dim_constr=dim_constr), ins, want_J=False)
+                    sep = np.ravel(o["section_separation"])
+                    exp = []
+                    for e in range(nsec - 1):
+                        # edge e joins section e (its right edge) and section e+1 (its left edge); the moved section contributes +-off
+                        d = np.zeros(3)
+                        if shifted and e == moved - 1: d = -off      # right edge of section e fixed, left edge of the moved section shifted
+                        if shifted and e == moved: d = off
+                        for _r in (0, 1):
+                            exp += [d[k] for k in range(3) if masks[e][k]]
+                    exp = np.array(exp)
+                    if sep.shape != exp.shape: bad["shape"] = [list(sep.shape), list(exp.shape)]
+                    elif np.abs(np.abs(sep) - np.abs(exp)).max() > 1e-12: bad["separation%s" % ("-after-moving-a-section" if shifted else "-of-coincident-sections")] = [sep.tolist(), exp.tolist()]
+                O["cases"] += 1
+                if bad: _fail(O, "C14:GeomMultiJoin:%s" % sorted(bad)[0], {"num_sections": nsec, "masks": masks, "nx": nx, "ny": ny.tolist(), "seed": seed, "rep": rep}, errors=bad)
+                else: O["ok"] += 1
+            # user-provided section meshes in their own local frames (so that the unification has something to shift)
+            user = [s.copy() + (rng.normal(size=3) * 0.5 if i else 0.0) for i, s in enumerate(secs)]
+            before = [u.copy() for u in user]
+            for _ in range(2):
+                unify_mesh([{"mesh": u} for u in user], shift_uni_mesh=True)
+            O2["cases"] += 1
+            ch = max(float(np.abs(a - b).max()) for a, b in zip(user, before))
+            if ch != 0.0: _fail(O2, "C14:unify_mesh:user-section-meshes-modified", {"num_sections": nsec, "seed": seed, "rep": rep}, max_change=ch)
+            else: O2["ok"] += 1
+            R.mark("c14join", nsec, rep)
